@@ -528,7 +528,19 @@ Definition composite_extract (l : list (option string)) : res string :=
   end.
 
 (** a handler run: it answers with a status code, or panics.  recovery.New:
-    recover, log, eh.HandleError(ErrInternal) => 500 *)
-Inductive handled := Answered (status : Z) | Panicked.
+    recover, log, wrap the value as cause of ErrInternal and hand it to the
+    service's error handler, which answers by the first heimdall error kind the
+    chain `Is` (so a panic carrying an authentication error is a 401); a value
+    that is not an error, or an error of no such kind, is a 500. *)
+Inductive pkind := PkAuthn | PkAuthz | PkComm | PkArg | PkNoRule | PkOther.
+Inductive handled := Answered (status : Z) | Panicked (k : pkind).
 Definition recovery_mw (h : handled) : Z :=
-  match h with Answered s => s | Panicked => 500%Z end.
+  match h with
+  | Answered s => s
+  | Panicked PkAuthn => 401
+  | Panicked PkAuthz => 403
+  | Panicked PkComm => 502
+  | Panicked PkArg => 400
+  | Panicked PkNoRule => 404
+  | Panicked PkOther => 500
+  end%Z.
